@@ -17,8 +17,8 @@ META = {
                    "the checks / sort+dedup); host-bits guards and provenance in the Prefix constructors; the decoder guard "
                    "that justifies the one unsafe SmallAsnSet constructor call; Eq/Ord/Hash of RouteOrigin read exactly the "
                    "same projections; shift sites enumerated; the step table of each of the four merge iterators (what is "
-                   "advanced / yielded for every combination of heads and their order) equals the table of its set operation; Prefix::covers is false on every path feasible for a more specific self.",
-    "not_decided": ["covers ⇔ range inclusion (128-bit mask arithmetic)", "totality/transitivity of Ord",
+                   "advanced / yielded for every combination of heads and their order) equals the table of its set operation; Prefix::covers is false on every path feasible for a more specific self; Prefix::covers ⇔ range inclusion for every pair of lengths of either family (the returned expression evaluated over 128-bit vectors of GF(2) forms in the address bits, compared with {s_i = o_i : i < len(self)} in reduced row echelon form; no full-width shift on a feasible path).",
+    "not_decided": ["totality/transitivity of Ord",
                     "correctness of the merge iterators beyond their single-step tables (that the inputs are ascending)", "text round trip as value identity"],
     "trusted_base": ["std sort/dedup/binary_search", "derive(PartialEq, Hash) compare/hash all fields",
                      "a BTreeSet iterates in ascending order without duplicates",
@@ -927,6 +927,7 @@ def run(ctx):
 
     check_merge_iterators(ctx, f)
     check_covers_family(ctx, f)
+    check_covers_inclusion(ctx, f)
 
     # ---- C13.e shift sites ---------------------------------------------------------------
     shifts = []
@@ -1789,3 +1790,357 @@ def check_covers_family(ctx, f):
     ctx.ob("R-GRD", "Prefix::covers:not-more-specific", not bad2,
            "Prefix::covers returns false whenever self is longer (more specific) than other — no path that is feasible then "
            "returns anything else", where=b.loc, detail={"paths": len(ps), "counterexamples": bad2[:3]})
+
+
+# ---------------------------------------------------------------------------------------------
+# Prefix::covers ⇔ range inclusion, decided bit by bit (session 6)
+
+class _CoversUnsupported(Exception):
+    pass
+
+
+_W = 128
+_ALL = (1 << _W) - 1
+_LENRX = re.compile(r"^(?:Prefix|FamilyAndLen)::len\((self|%2)(?:\.family_and_len)?\)$")
+_FAMRX = re.compile(r"^(?:Prefix|FamilyAndLen)::is_v([46])\((self|%2)(?:\.family_and_len)?\)$")
+_BITSRX = re.compile(r"^(?:(?:[A-Za-z_]\w*::)*[A-Za-z_]\w*\()*(self|%2)\.bits(?:\.0)?\)*$")
+_PFXRX = re.compile(r"^(self|%2)$")
+
+
+class _BitVec:
+    """A 128-bit value whose every bit is an affine form over GF(2) in the address bits of the two prefixes: bit k
+    (k = 0 is the most significant) is an int whose binary digits select s_0..s_127 (digits 0..127), o_0..o_127 (digits
+    128..255) and the constant 1 (digit 256).  A concrete number is a vector of constant forms."""
+    ONE = 1 << 256
+
+    def __init__(self, bits):
+        self.bits = bits
+
+    @classmethod
+    def const(cls, v):
+        v &= _ALL
+        return cls([cls.ONE if (v >> (_W - 1 - k)) & 1 else 0 for k in range(_W)])
+
+    @classmethod
+    def address(cls, which, length):
+        base = 0 if which == "self" else 128
+        # invariant of Prefix (established by its constructors, C13 R-WHO / host-bits guards): bits beyond len are zero
+        return cls([(1 << (base + k)) if k < length else 0 for k in range(_W)])
+
+    def concrete(self):
+        v = 0
+        for k, b in enumerate(self.bits):
+            if b == self.ONE:
+                v |= 1 << (_W - 1 - k)
+            elif b != 0:
+                return None
+        return v
+
+
+_TXT = {}
+
+
+def _term_text(t, b):
+    """(strip_deep(t), α-normalised text), memoised per term object for the duration of one rule evaluation."""
+    r = _TXT.get(id(t))
+    if r is None or r[0] is not t:
+        sd = strip_deep(t)
+        r = (t, sd, K.alpha(render(sd), b))
+        _TXT[id(t)] = r
+    return r[1], r[2]
+
+
+def _bv_eval(t, b, env):
+    """Value of a term under concrete prefix lengths: an int (lengths, constants, arithmetic on them) or a _BitVec."""
+    t, txt = _term_text(t, b)
+    k = t[0]
+    m = _LENRX.match(txt)
+    if m:
+        return env["len"][m.group(1)]
+    m = _BITSRX.match(txt)
+    if m:
+        return _BitVec.address(m.group(1), env["len"][m.group(1)])
+    if k == "const":
+        v = t[1]
+        if isinstance(v, bool):
+            return int(v)
+        if isinstance(v, int):
+            return v
+        raise _CoversUnsupported("constant %r" % (v,))
+    if k == "cast":
+        v = _bv_eval(t[1], b, env)
+        if isinstance(v, int):
+            return v
+        raise _CoversUnsupported("cast of an address value")
+    if k == "call":
+        nm = (t[3] or {}).get("name") if len(t) > 3 else None
+        args = [_bv_eval(a, b, env) for a in t[2]]
+        if nm in ("into", "from", "into_int", "clone") and len(args) == 1:
+            return args[0]
+        if nm in ("saturating_sub", "wrapping_sub") and all(isinstance(a, int) for a in args) and len(args) == 2:
+            return max(args[0] - args[1], 0) if nm == "saturating_sub" else (args[0] - args[1]) & 0xFF
+        if nm in ("min", "max") and all(isinstance(a, int) for a in args) and len(args) == 2:
+            return min(args) if nm == "min" else max(args)
+        raise _CoversUnsupported("call %s" % (nm or t[1]))
+    if k == "un" and t[1] == "Not":
+        v = _bv_eval(t[2], b, env)
+        if isinstance(v, int):
+            v = _BitVec.const(v)
+        return _BitVec([x ^ _BitVec.ONE for x in v.bits])
+    if k == "bin":
+        op = t[1]
+        x, y = _bv_eval(t[2], b, env), _bv_eval(t[3], b, env)
+        if op in ("Shl", "Shr", "ShlUnchecked", "ShrUnchecked"):
+            if not isinstance(y, int):
+                raise _CoversUnsupported("shift by an address value")
+            if y < 0 or y >= _W:
+                raise OverflowError("shift of a 128-bit value by %d" % y)
+            if isinstance(x, int):
+                x = _BitVec.const(x)
+            if op.startswith("Shl"):
+                return _BitVec(x.bits[y:] + [0] * y)
+            return _BitVec([0] * y + x.bits[:_W - y])
+        if op in ("Add", "Sub", "AddWithOverflow", "SubWithOverflow", "Mul") and isinstance(x, int) and isinstance(y, int):
+            r = x + y if op.startswith("Add") else x - y if op.startswith("Sub") else x * y
+            if r < 0:
+                raise OverflowError("%d - %d on unsigned lengths" % (x, y))
+            return r
+        if op in ("BitAnd", "BitOr", "BitXor"):
+            if isinstance(x, int) and isinstance(y, int):
+                return {"BitAnd": x & y, "BitOr": x | y, "BitXor": x ^ y}[op]
+            if isinstance(x, int):
+                x = _BitVec.const(x)
+            if isinstance(y, int):
+                y = _BitVec.const(y)
+            out = []
+            for p, q in zip(x.bits, y.bits):
+                if op == "BitXor":
+                    out.append(p ^ q)
+                elif op == "BitAnd":
+                    if p == 0 or q == 0:
+                        out.append(0)
+                    elif p == _BitVec.ONE:
+                        out.append(q)
+                    elif q == _BitVec.ONE:
+                        out.append(p)
+                    elif p == q:
+                        out.append(p)
+                    else:
+                        raise _CoversUnsupported("product of two address bits")
+                else:
+                    if p == _BitVec.ONE or q == _BitVec.ONE:
+                        out.append(_BitVec.ONE)
+                    elif p == 0:
+                        out.append(q)
+                    elif q == 0 or p == q:
+                        out.append(p)
+                    else:
+                        raise _CoversUnsupported("disjunction of two address bits")
+            return _BitVec(out)
+        raise _CoversUnsupported("operator %s" % op)
+    if k == "field" and t[2] == "0":
+        # `.0` of an (x, overflow) pair
+        return _bv_eval(t[1], b, env)
+    raise _CoversUnsupported("term %s" % txt[:60])
+
+
+def _rref(rows):
+    """Reduced row echelon form of affine forms over GF(2) (ints; digit 256 = the constant)."""
+    rows = [r for r in rows if r]
+    piv = []
+    for col in range(256):
+        bit = 1 << col
+        p = None
+        for i, r in enumerate(rows):
+            if r & bit and i not in [x for x, _ in piv]:
+                p = i
+                break
+        if p is None:
+            continue
+        for i in range(len(rows)):
+            if i != p and rows[i] & bit:
+                rows[i] ^= rows[p]
+        piv.append((p, col))
+    return sorted(set(r for r in rows if r))
+
+
+def _covers_system(a, b, env):
+    """The linear system (rows that must all be zero) under which the atom `a` is true, or True / False."""
+    from engine import orderlogic as OL
+    neg = False
+    while a[0] == "not":
+        a, neg = a[1], not neg
+    if a[0] == "const":
+        return bool(a[1]) != neg
+    if a[0] != "cmp" or a[1] not in ("==", "!="):
+        raise _CoversUnsupported("result %s" % (a[0],))
+    if a[1] == "!=":
+        neg = not neg
+    xt, yt = _term_text(a[2], b)[1], _term_text(a[3], b)[1]
+    if _PFXRX.match(xt) and _PFXRX.match(yt) and xt != yt:
+        # equality of the two prefixes: family and length (here: the same family) and the address bits
+        if env["len"]["self"] != env["len"]["%2"]:
+            rows = False
+        else:
+            x, y = _BitVec.address("self", env["len"]["self"]), _BitVec.address("%2", env["len"]["%2"])
+            rows = [p ^ q for p, q in zip(x.bits, y.bits)]
+    else:
+        x, y = _bv_eval(a[2], b, env), _bv_eval(a[3], b, env)
+        if isinstance(x, int) and isinstance(y, int):
+            rows = (x == y)
+        else:
+            if isinstance(x, int):
+                x = _BitVec.const(x)
+            if isinstance(y, int):
+                y = _BitVec.const(y)
+            rows = [p ^ q for p, q in zip(x.bits, y.bits)]
+    if isinstance(rows, bool):
+        return rows != neg
+    rr = _rref(rows)
+    if _BitVec.ONE in rr:
+        return neg           # inconsistent: the equality never holds
+    if not rr:
+        return not neg       # holds for every address
+    if neg:
+        raise _CoversUnsupported("inequality of address values")
+    return rr
+
+
+def check_covers_inclusion(ctx, f):
+    """Prefix::covers(self, other) ⇔ the addresses of `other` are addresses of `self`: same family, len(self) ≤ len(other)
+    and the first len(self) address bits agree.  Decided for every pair of lengths of either family: the branch conditions
+    of the MIR paths are evaluated on the lengths, the returned expression is evaluated over 128-bit vectors whose bits
+    are affine forms (GF(2)) in the address bits of the two prefixes — host bits are zero by the constructors' invariant —
+    and the linear system under which it is true must be the system {s_i = o_i : i < len(self)} (compared in reduced row
+    echelon form).  A shift by 128 or more on a feasible path is an overflow.  A returned expression outside this
+    vocabulary gives no verdict."""
+    from engine import orderlogic as OL
+    fn = "resources::addr::Prefix::covers"
+    b = f.body(fn)
+    if b is None:
+        return ctx.missing("R-REG", "Prefix::covers", fn)
+    s = K.sym_of(b)
+    key = "Prefix::covers:range-inclusion"
+    what = ("Prefix::covers answers true exactly when both prefixes are of one family, self is not longer than other and the "
+            "first len(self) address bits agree — for every pair of lengths of either family (bit-vector evaluation of the "
+            "returned expression over GF(2), no shift by the full width on a feasible path)")
+    trails = []
+    try:
+        ps = OL.paths(b, s, trails=trails)
+    except OL.NotComparisonOnly as e:
+        return ctx.ob("R-REG", key, True, what + " — no verdict: not loop-free comparison code (%s)" % e, where=b.loc, noverdict=True)
+
+    def resolve(t, trail):
+        """A local assigned on several paths (`let host_len = if v4 { 32 } else { 128 }`) has, on one path, the value of
+        the last assignment the path passes."""
+        if not isinstance(t, tuple):
+            return t
+        if len(t) == 3 and t[0] == "var" and isinstance(t[2], int):
+            best = None
+            for bb, val in s.defs_of_var(t[2]):
+                if bb in trail:
+                    i = trail.index(bb)
+                    if best is None or i > best[0]:
+                        best = (i, val)
+            if best is not None and best[1][0] != "unknown":
+                return resolve(strip_deep(best[1]), trail)
+            return t
+        if t[0] == "call" and len(t) > 3:
+            return ("call", t[1], tuple(resolve(a, trail) for a in t[2]), t[3])
+        return tuple(resolve(x, trail) if isinstance(x, tuple) else x for x in t)
+
+    def resolve_atom(a, trail):
+        if a[0] == "not":
+            return ("not", resolve_atom(a[1], trail))
+        if a[0] == "cmp":
+            return ("cmp", a[1], resolve(a[2], trail), resolve(a[3], trail))
+        return a
+    ps = [([(resolve_atom(a, tr), truth) for a, truth in conds], resolve(ret, tr) if ret is not None else None)
+          for (conds, ret), tr in zip(ps, trails)]
+
+    def cond_value(a, env):
+        neg = False
+        while a[0] == "not":
+            a, neg = a[1], not neg
+        v = None
+        if a[0] == "cmp":
+            try:
+                x, y = _bv_eval(a[2], b, env), _bv_eval(a[3], b, env)
+            except (_CoversUnsupported, OverflowError):
+                x = y = None
+            if x is None:
+                fx, fy = _FAMRX.match(_term_text(a[2], b)[1] or ""), _FAMRX.match(_term_text(a[3], b)[1] or "")
+                if fx and fy:
+                    x = int((fx.group(1) == "4") == env["v4"])
+                    y = int((fy.group(1) == "4") == env["v4"])
+            if isinstance(x, int) and isinstance(y, int):
+                v = {"<": x < y, "<=": x <= y, ">": x > y, ">=": x >= y, "==": x == y, "!=": x != y}[a[1]]
+        elif a[0] == "opaque":
+            m = _FAMRX.match(K.alpha(a[1], b) or "")
+            if m:
+                v = (m.group(1) == "4") == env["v4"]
+        if v is None:
+            return None
+        return (not v) if neg else v
+
+    bad, unsupported, judged, cache = [], [], 0, {}
+    _TXT.clear()
+    for v4, top in ((True, 32), (False, 128)):
+        for ls in range(top + 1):
+            want_le = _rref([(1 << i) ^ (1 << (128 + i)) for i in range(ls)]) or True
+            for lo in range(top + 1):
+                env = {"v4": v4, "len": {"self": ls, "%2": lo}}
+                want = want_le if ls <= lo else False
+                for pi, (conds, ret) in enumerate(ps):
+                    feasible, certain = True, True
+                    for a, truth in conds:
+                        v = cond_value(a, env)
+                        if v is None:
+                            certain = False
+                        elif v != truth:
+                            feasible = False
+                            break
+                    if not feasible:
+                        continue
+                    judged += 1
+                    rt = _term_text(ret, b)[1] if ret is not None else ""
+                    ck = (pi, ls, lo if ("%2)" in rt and "len(" in rt) else None, ls == lo)
+                    try:
+                        if ret is None:
+                            raise _CoversUnsupported("no returned value")
+                        if ck not in cache:
+                            try:
+                                cache[ck] = _covers_system(OL.atom(ret), b, env)
+                            except (_CoversUnsupported, OverflowError) as e:
+                                cache[ck] = e
+                        got = cache[ck]
+                        if isinstance(got, Exception):
+                            raise got
+                    except _CoversUnsupported as e:
+                        unsupported.append(str(e))
+                        continue
+                    except OverflowError as e:
+                        if not certain:
+                            unsupported.append("a branch condition on the way to a shift could not be evaluated")
+                        elif len(bad) < 6:
+                            bad.append({"family": "v4" if v4 else "v6", "len(self)": ls, "len(other)": lo, "problem": str(e)})
+                        else:
+                            bad.append(None)
+                        continue
+                    if got != want and not certain:
+                        unsupported.append("a branch condition on the way to a result could not be evaluated")
+                    elif got != want:
+                        if len(bad) < 6:
+                            bad.append({"family": "v4" if v4 else "v6", "len(self)": ls, "len(other)": lo,
+                                        "returns": K.alpha(render(ret), b)[:140],
+                                        "true_for": "never" if got is False else "every address" if got is True else "%d bit equations" % len(got),
+                                        "should_be_true_for": "never" if want is False else "every address" if want is True else "agreement of the first %d bits" % ls})
+                        else:
+                            bad.append(None)
+    if unsupported and not bad:
+        return ctx.ob("R-REG", key, True, what + " — no verdict: the returned expression is outside the bit-vector vocabulary (%s)"
+                      % sorted(set(unsupported))[0], where=b.loc, noverdict=True, detail={"unsupported": sorted(set(unsupported))[:5]})
+    ctx.ob("R-REG", key, not bad, what, where=b.loc,
+           detail={"paths": len(ps), "length_pairs": 33 * 33 + 129 * 129, "path_evaluations": judged,
+                   "counterexamples": [x for x in bad if x][:6], "n_counterexamples": len(bad)})
+    ctx.floor("R-REG", "feasible (path, length pair) evaluations of Prefix::covers", judged, 17000)
